@@ -293,14 +293,37 @@ func (o *ovsdbClient) connect(ctx context.Context, reconnect bool) error {
 				continue
 			}
 
-			// Restart all monitors; each monitor will handle purging
-			// the cache if necessary
+			// With several monitors every reply carries the complete
+			// contents of its tables: purge once, before any of them is
+			// restarted (a purge per monitor would throw away what the
+			// monitors restarted earlier have just put in). A single
+			// monitor decides for itself once it has its reply.
+			if len(db.monitors) > 1 {
+				db.cacheMutex.Lock()
+				db.cache.Purge(db.model)
+				db.cacheMutex.Unlock()
+			}
+
+			// Restart all monitors. Notifications stay deferred until
+			// all of them have their initial contents.
+			lastID := ""
 			for id, request := range db.monitors {
 				err := o.monitor(ctx, MonitorCookie{DatabaseName: dbName, ID: id}, true, request)
 				if err != nil {
 					o.resetRPCClient()
 					return err
 				}
+				lastID = id
+			}
+			if len(db.monitors) > 1 {
+				lastID = ""
+			}
+			db.cacheMutex.Lock()
+			err := db.applyDeferredUpdates(lastID)
+			db.cacheMutex.Unlock()
+			if err != nil {
+				o.resetRPCClient()
+				return err
 			}
 		}
 	}
@@ -1086,7 +1109,7 @@ func (o *ovsdbClient) monitor(ctx context.Context, cookie MonitorCookie, reconne
 	// server. In this case the reply contains only updates to the existing
 	// cache data, while otherwise it includes complete DB data so we must
 	// purge to get rid of old rows.
-	if reconnecting && (len(db.monitors) > 1 || !lastTransactionFound) {
+	if reconnecting && len(db.monitors) == 1 && !lastTransactionFound {
 		db.cache.Purge(db.model)
 	}
 
@@ -1100,6 +1123,12 @@ func (o *ovsdbClient) monitor(ctx context.Context, cookie MonitorCookie, reconne
 
 	if err != nil {
 		return err
+	}
+
+	if reconnecting {
+		// connect() applies the deferred updates once every monitor
+		// has been restarted
+		return nil
 	}
 
 	// populate any deferred updates
